@@ -77,7 +77,9 @@ def gen_program(rng, nkeys, cyclic=False, malformed=False, mustfollow=False):
                     # a discovered dependency on a derived rule (outside Program.WF, but the engine allows it);
                     # with `cyclic` it may point forward, so that discovered edges can close cycles
                     tgt = 1 + rng.below(nkeys if cyclic else max(1, k - 1))
-                    if tgt == k:
+                    if tgt == k and not (cyclic and rng.chance(1, 2)):
+                        # (with `cyclic`, a rule may also discover ITSELF: the first build completes, every later scan of the
+                        # rule meets the recorded self-edge — a cycle of length one)
                         tgt = 1
                 if value_reqs and rng.chance(1, 2):
                     base = rng.choice(value_reqs)
@@ -87,6 +89,43 @@ def gen_program(rng, nkeys, cyclic=False, malformed=False, mustfollow=False):
                     r.discs.append(((0, value_reqs[0][1], 0, 0), tgt))
         rules[k] = r
     return rules
+
+
+def gen_self_discovery(rng):
+    """directed: a rule that reports ITS OWN key as a discovered dependency.  The build in which it does so completes;
+    every later build that scans the rule while it is otherwise up to date meets the recorded self-edge: a cycle of
+    length one ([A, A], or [R, A, A] below a requested key R), which must be reported, never skipped."""
+    rules = {1: Rule(1, 0), 2: Rule(2, 0)}
+    A = 3
+    r = Rule(A, 1)
+    r.sigBase = rng.below(3)
+    r.deferred = 1 if rng.chance(1, 3) else 0
+    r.statics.append((1, 1, 0))
+    if rng.chance(1, 2):
+        r.statics.append((2, 2, rng.choice([0, 2])))
+    r.discs.append(((0, 1, 0, 0), A))                  # whenever input 1 was delivered: discover A itself
+    if rng.chance(1, 2):
+        r.discs.append(((0, 1, 0, 0), 2))
+    rules[A] = r
+    top = None
+    if rng.chance(1, 2):
+        top = 4
+        t = Rule(top, 1)
+        t.statics.append((A, 1, rng.choice([0, 0, 2])))
+        rules[top] = t
+    ops = [{"op": "M", "slot": 1, "val": 101}, {"op": "M", "slot": 2, "val": 102}]
+
+    def build(k):
+        items = [(0, [rng.choice([A, top or A]) for _ in range(rng.below(3))]) for _ in range(rng.below(6))]
+        return {"op": "B", "key": k, "cancel_at": 0, "mode": 0, "items": items}
+    ops.append(build(top or A))
+    if rng.chance(1, 3):
+        ops.append({"op": "E"})
+    ops.append(build(rng.choice([A, top or A])))       # nothing changed: A is scanned, its recorded self-edge is met
+    if rng.chance(1, 2):
+        ops.append({"op": "M", "slot": 2, "val": 103})
+        ops.append(build(top or A))
+    return Case(rules, ops)
 
 
 def gen_latent_cycle(rng):
@@ -637,6 +676,7 @@ def analyse_case(case, houts, focus):
                                       "kind": "protocol", "clause": "prior-value", "input": where})
                 if int(e[2]):
                     st["disc"] += 1
+                tk["discs"] = [int(x) for x in e[3:3 + int(e[2])]]
                 for q in tk["reqs"]:
                     if q[2] == 2:
                         if q[0] not in finished:
@@ -681,10 +721,38 @@ def analyse_case(case, houts, focus):
             elif t == "DS":
                 nd = int(e[6])
                 sh.deps[int(e[1])] = [(int(e[7 + 3 * j]), e[8 + 3 * j] == "1", e[9 + 3 * j] == "1") for j in range(nd)]
+                # "everything a build records - ... its dependency list ... with the order-only and single-use flags": the row
+                # written for a task is exactly what THIS execution requested (value / single-use / must-follow, as a multiset:
+                # the order of recording follows the engine's processing order) followed by what it discovered
+                tk = tasks.get(int(e[1]))
+                if tk is not None and tk.get("ia") and focus in ("C02", "C03", "C01", "all"):
+                    want = sorted([(q[0], q[2] == 2, q[2] == 1) for q in tk["reqs"]] + [(d, False, False) for d in tk.get("discs", [])])
+                    st["deps_records_checked"] = st.get("deps_records_checked", 0) + 1
+                    if sorted(sh.deps[int(e[1])]) != want:
+                        fails.append({"what": "the dependency list recorded for rule %s %s is not what this execution requested and discovered %s" % (
+                                          e[1], sorted(sh.deps[int(e[1])]), want), "kind": "bad-deps-record", "input": where})
             elif t == "DI":
                 sh.persist_epoch = int(e[1])
         if tail and (tail[1] != "0" or tail[2] != "0"):
             fails.append({"what": "after build() returned: %s live tasks, %s late callbacks" % (tail[1], tail[2]), "kind": "leak", "input": where})
+        # rules declared up to date by the scan (`S k 1`): each of their recorded non-single-use dependencies was complete
+        # before — so the recorded dependency graph among them is acyclic.  A recorded cycle (a self-edge included) that the
+        # scan "survives" is a cycle that was neither waited out nor reported.
+        upd = set(int(e[1]) for e in tr if e[0] == "S" and len(e) > 2 and e[2] == "1")
+        if upd and focus in ("C07", "all"):
+            g = {k: [d for d, oo, su in sh.deps.get(k, []) if not su and (d in upd)] for k in upd}
+            color = {}
+
+            def dfs(u):
+                color[u] = 1
+                for v in g.get(u, []):
+                    if color.get(v) == 1 or (color.get(v) is None and dfs(v)):
+                        return True
+                color[u] = 2
+                return False
+            if any(color.get(k) is None and dfs(k) for k in sorted(upd)):
+                fails.append({"what": "rules %s were declared up to date in one build although their RECORDED dependencies form a cycle among them (a recorded cycle was skipped instead of reported)" % sorted(k for k in upd if color.get(k) == 1),
+                              "kind": "missed-cycle", "recorded": True, "input": where})
         success = not cancelled and not cyc and not err
         if cancelled and not cyc and not err and ret[1] != "0":
             # the cancellation arrived after the work loop had finished: the build legitimately succeeded
